@@ -44,6 +44,10 @@ TECHNIQUE = "Lean 4 proof (determinism of the draw monad, real analysis of log-m
 def base_cfg(rng, ltype):
     cfg = dict(z_lens=0.5, z_source=1.5, name="L", lambda_scaling_property=rng.choice([0.0, 0.4]),
                lambda_scaling_property_beta=0.0, num_distribution_draws=rng.choice([2, 3, 5, 8]))
+    if rng.random() < 0.4:
+        # the sampler-side switch for log10-sampled scatters reaches every lens through the global model settings; the
+        # hyper-parameter dictionaries a lens receives are linear in either case
+        cfg["log_scatter"] = True
     h = dict(kwargs_lens=dict(lambda_mst=rng.uniform(0.9, 1.1), gamma_ppn=1.0), kwargs_kin={}, kwargs_source={}, kwargs_los=None)
     return cfg, h
 
